@@ -5,6 +5,6 @@ cd /verif
 for d in seeded/*/; do
   n=$(basename "$d")
   checks=$(python3 -c "import json;m=json.load(open('$d/meta.json'));print(' '.join(m['caught_by'] or m['checks_run']))")
-  out=$(./tools_seed_eval.sh "$d/patch.diff" $checks 2>&1 | grep '^==' | tr '\n' ' ')
+  out=$(./tools_seed_eval.sh "/verif/${d}patch.diff" $checks 2>&1 | grep '^==' | tr '\n' ' ')
   echo "$n: $out"
 done
